@@ -157,6 +157,43 @@ def run(tier, seed, t0):
                 failures.append({'class': 'foreign-accepted', 'key': '%s>%s' % (sexp(t), sexp(u)),
                                  'what': 'bytes written as %s (value %s) were accepted when read as %s although the schemas differ: %s [%s]'
                                          % (rust(t), repr_, rust(u), a, cfg), 'written': sexp(t), 'read': sexp(u), 'bytes': h, 'result': a})
+        # (2b) types kept out of the pairs because a FOREIGN length prefix would make them loop (elements that take no
+        # bytes on the wire but occupy memory: Vec<RefCell<()>>, Vec<RangeInclusive<()>>, ...): their own bytes are
+        # harmless, and their schemas are the ones `validate()` refuses - same-type round trip only
+        wet = [(tid, t) for tid, t in cat if has_schema(t) and can_de(t) and unbounded_on_hostile_input(t)]
+        wcases = [('q%d_%d' % (tid, j), tid, t, show(gen_val(t, rng, 4))) for tid, t in wet for j in range(nval)]
+        wi = run_cases(exe, [case_line(cid, 'encws', tid, sexp(t), v) for cid, tid, t, v in wcases])
+        wl_i, wl_m, wrecs = [], [], []
+        for cid, tid, t, v in wcases:
+            r = wi.get(cid)
+            if r is None or '\t' not in r:
+                if r is None or not r.startswith('skip'):
+                    disagreements.append({'what': 'encws %s %s: %s' % (sexp(t), v, r)})
+                continue
+            repr_, res = r.split('\t', 1)
+            classes['wire-empty encws:' + error_class(res)] += 1
+            if res.startswith('ok '):
+                h = res[3:].replace('-', '')
+                wrecs.append((cid, tid, t, repr_, h))
+                wl_i.append(case_line(cid, 'decws', tid, sexp(t), h))
+                wl_m.append(case_line(cid, 'decws', tid, sexp(t), strict, h))
+                wl_m.append(case_line(cid + 'w', 'encws', tid, sexp(t), repr_))
+        wd, wm = run_cases(exe, wl_i), run_cases(driver, wl_m)
+        stats['wire_empty_element_types'] = len(wet)
+        for cid, tid, t, repr_, h in wrecs:
+            stats['evaluations'] += 1
+            a, b = wd.get(cid), wm.get(cid)
+            classes['wire-empty same:' + error_class(a)] += 1
+            if (wm.get(cid + 'w') or '').replace('-', '') != 'ok ' + h:
+                disagreements.append({'what': 'try_to_vec_with_schema %s %s: impl ok %s, model %s [%s]' % (sexp(t), repr_, h[:80], wm.get(cid + 'w'), cfg)})
+            if a is None or a != b:
+                disagreements.append({'what': 'try_from_slice_with_schema::<%s> on its own bytes of %s: impl %s, model %s [%s]' % (rust(t), repr_, a, b, cfg)})
+            if a is None or not a.startswith('ok '):
+                failures.append({'class': 'ws-roundtrip', 'key': '%s %s' % (sexp(t), repr_),
+                                 'what': 'try_from_slice_with_schema(try_to_vec_with_schema(v)) is refused: type %s value %s -> %s [%s]' % (rust(t), repr_, a, cfg),
+                                 'type': sexp(t), 'value': repr_, 'bytes': h, 'result': a})
+            else:
+                distinct.add((sexp(t), repr_))
         # (3) corrupted prefixes
         clines_i, clines_m, muts = [], [], []
         for cid, tid, t, repr_, h, vb in written[::2]:
